@@ -1,6 +1,6 @@
 (* C13 — LIKE and IS [NOT] NULL have SQL semantics on every evaluation path.
    Only statements, each closed by [exact]; proofs live in Proofs/. *)
-From SV Require Import Model.Like Proofs.LikeProofs Proofs.LikeRewrite.
+From SV Require Import Model.Like Model.NullCol Proofs.LikeProofs Proofs.LikeRewrite Proofs.NullColProofs.
 
 (* the three two-pointer matchers (one text, three copies in the code) decide exactly LIKE *)
 Theorem C13_like_matcher : forall t p : bytes, like_match t p = true <-> Like p t.
@@ -25,6 +25,38 @@ Theorem C13_is_not_null : forall v, is_not_null v = negb (is_null v).
 Proof. exact is_not_null_neg. Qed.
 Print Assumptions C13_is_not_null.
 
+(* IS [NOT] NULL on a NAMED column of a row (rows = lists of (name, cell) bindings with pairwise
+   different names, None = NULL): false exactly when the row binds that name to a value *)
+Theorem C13_col_is_null : forall (n : bytes) (r : c13_row), NoDup (row_keys r) ->
+  (col_is_null n r = true <-> forall v, ~ In (n, Some v) r).
+Proof. exact col_is_null_true_iff. Qed.
+Print Assumptions C13_col_is_null.
+
+Theorem C13_col_is_not_null : forall (n : bytes) (r : c13_row),
+  col_is_not_null n r = negb (col_is_null n r).
+Proof. exact col_is_not_null_neg. Qed.
+Print Assumptions C13_col_is_not_null.
+
+(* the answer does not depend on how the column is spelled: any injective renaming applied to the
+   predicate's operand and to the row's names leaves it unchanged (note / NOTE / isnull / android ...) *)
+Theorem C13_col_is_null_spelling : forall f : bytes -> bytes, (forall a b, f a = f b -> a = b) ->
+  forall (n : bytes) (r : c13_row), col_is_null (f n) (rename_row f r) = col_is_null n r.
+Proof. exact col_is_null_rename. Qed.
+Print Assumptions C13_col_is_null_spelling.
+
+(* nor on the value of a present column ('' , 0 , false are not NULL) *)
+Theorem C13_col_is_null_value : forall (g : bytes -> bytes) (n : bytes) (r : c13_row),
+  col_is_null n (revalue_row g r) = col_is_null n r.
+Proof. exact col_is_null_revalue. Qed.
+Print Assumptions C13_col_is_null_value.
+
+(* PreprocessIsNullExpression (`n IS NULL` -> `n == nil`, `n IS NOT NULL` -> `n != nil`) followed by
+   expr-lang's nil comparison decides IS [NOT] NULL for every operand name and every row *)
+Theorem C13_is_null_rewrite : forall (neg : bool) (n : bytes) (r : c13_row),
+  sql_is_null_pred neg n r = if neg then col_is_not_null n r else col_is_null n r.
+Proof. exact sql_is_null_pred_correct. Qed.
+Print Assumptions C13_is_null_rewrite.
+
 (* history: the matcher as written before the fix (literal test first) was wrong (F4) *)
 Theorem C13_like_asis_refuted : exists t p, like_match_asis t p = Some false /\ like p t = true.
 Proof. exact like_asis_refuted. Qed.
@@ -35,3 +67,13 @@ Example C13_example :
   Like [pct; 97; us]%N [pct; 98; 97; 98]%N /\ like_match [pct; 98; 97; 98]%N [pct; 97; us]%N = true
   /\ eval_rewritten (convert [pct; pct; 97]%N) [120; 97]%N = true.
 Proof. split; [apply like_iff; reflexivity|split; reflexivity]. Qed.
+
+(* non-vacuity: a row {note: 'x', NOTE: NULL}: note IS NULL is false, NOTE IS NULL and Note IS NULL are true *)
+Example C13_col_example :
+  let r : c13_row := [([110;111;116;101]%N, Some [120]%N); ([78;79;84;69]%N, None)] in
+  NoDup (row_keys r) /\ col_is_null [110;111;116;101]%N r = false /\ col_is_null [78;79;84;69]%N r = true
+  /\ col_is_null [78;111;116;101]%N r = true /\ sql_is_null_pred false [110;111;116;101]%N r = false.
+Proof.
+  cbn. repeat split; try reflexivity.
+  repeat constructor; cbn; intros H; repeat (destruct H as [H|H]; [discriminate|]); exact H.
+Qed.
